@@ -247,6 +247,15 @@ type Clause struct {
 	Tags      []string
 	Label     string
 	RootScope bool // evaluated in the root function's scope (derived invariants)
+	Mixed     bool // a root function's clause on the loop of an inlined callee: callee scope plus self/root_<param>
+}
+
+// Mark records a ghost value when an inlined function returns: $name_<k> for
+// the k-th call site (source order) of that function in the calling function.
+type Mark struct {
+	Name string
+	Expr *Node
+	Tags []string
 }
 
 type LoopContract struct {
@@ -269,6 +278,9 @@ type Contract struct {
 	Line     int
 	Lets     map[string]*Node
 	GlobalInvs []Clause
+	OnlyFor    []string // used as a contract only when checking these properties; inlined otherwise
+	Marks      []Mark
+	Within     map[string]*LoopContract // "callee#ord": clauses of this (root) function on loops of inlined callees
 }
 
 type typeInvariant struct {
@@ -290,6 +302,7 @@ func readContracts(path string) (map[string]*Contract, error) {
 	out := map[string]*Contract{}
 	var cur *Contract
 	var curLoop *LoopContract
+	var curWithin bool
 	var lastClause *Clause
 	lines := strings.Split(string(data), "\n")
 	for ln, line := range lines {
@@ -338,6 +351,7 @@ func readContracts(path string) (map[string]*Contract, error) {
 				out[cur.Func] = cur
 			}
 			curLoop = nil
+			curWithin = false
 			lastClause = nil
 		case "requires", "ensures", "assigns", "invariant", "decreases", "latch":
 			if cur == nil {
@@ -358,6 +372,11 @@ func readContracts(path string) (map[string]*Contract, error) {
 					return nil, err
 				}
 				cls = []Clause{c}
+			}
+			if curWithin && curLoop != nil {
+				for i := range cls {
+					cls[i].Mixed = true
+				}
 			}
 			switch word {
 			case "requires":
@@ -394,7 +413,37 @@ func readContracts(path string) (map[string]*Contract, error) {
 				}
 				curLoop.Latch = append(curLoop.Latch, cls...)
 			}
+		case "within":
+			// within <callee> loop N:   -- clauses of this function on a loop of an inlined callee
+			i := strings.LastIndex(rest, " loop ")
+			if cur == nil || i < 0 {
+				return nil, fmt.Errorf("%s:%d: bad within", path, ln+1)
+			}
+			n, err := strconv.Atoi(strings.TrimSuffix(strings.TrimSpace(rest[i+6:]), ":"))
+			if err != nil {
+				return nil, fmt.Errorf("%s:%d: bad loop ordinal", path, ln+1)
+			}
+			key := fmt.Sprintf("%s#%d", strings.TrimSpace(rest[:i]), n)
+			if cur.Within == nil {
+				cur.Within = map[string]*LoopContract{}
+			}
+			if cur.Within[key] == nil {
+				cur.Within[key] = &LoopContract{}
+			}
+			curLoop = cur.Within[key]
+			curWithin = true
+		case "mark":
+			i := strings.Index(rest, "=")
+			if cur == nil || i < 0 {
+				return nil, fmt.Errorf("%s:%d: bad mark", path, ln+1)
+			}
+			n, err := parseSpec(strings.TrimSpace(rest[i+1:]))
+			if err != nil {
+				return nil, fmt.Errorf("%s:%d: %v", path, ln+1, err)
+			}
+			cur.Marks = append(cur.Marks, Mark{Name: strings.TrimSpace(rest[:i]), Expr: n, Tags: tags})
 		case "loop":
+			curWithin = false
 			if cur == nil {
 				return nil, fmt.Errorf("%s:%d: loop outside func", path, ln+1)
 			}
@@ -438,6 +487,8 @@ func readContracts(path string) (map[string]*Contract, error) {
 			cur.Trusted = true
 		case "inline":
 			cur.Inline = true
+		case "only-for":
+			cur.OnlyFor = append(cur.OnlyFor, strings.Fields(rest)...)
 		default:
 			return nil, fmt.Errorf("%s:%d: unknown clause %q", path, ln+1, word)
 		}
